@@ -73,6 +73,7 @@ type GenOpts struct {
 	MaxEntries int
 	Kinds      string // candidate kinds for non-root entries, e.g. "fdL" or "fdLpDc"
 	SubSecond  bool
+	FarTimes   bool // mtimes outside 1678..2262 (only for engines that do not materialise on a real filesystem)
 	BigIds     bool
 	Setid      bool
 	Xattrs     bool
@@ -81,6 +82,15 @@ type GenOpts struct {
 
 func (c *Ctx) genTime(o GenOpts) (int64, int) {
 	var sec int64
+	if o.FarTimes && c.Chance(1, 6) {
+		// beyond what UnixNano can represent (years < 1678 or > 2262), around the 2^63 ns and 2^64 ns marks
+		sec = []int64{9223372036, 9223372037, 18446744073, 18446744074, -9223372037, -9223372038, 1 << 36, -(1 << 35), 32503680000, 253402300799}[c.Intn(10)] + int64(c.Intn(3))
+		ns := 0
+		if o.SubSecond && c.Chance(2, 3) {
+			ns = []int{709551616, 854775807, 854775808, 1, 999999999}[c.Intn(5)]
+		}
+		return sec, ns
+	}
 	switch c.Intn(8) {
 	case 0:
 		sec = 0
